@@ -28,7 +28,7 @@ RULE = (
     "with explicit reversal on every odd traversal of a snaked axis, 10**linspace for log_scan, initial+offset for x2x_scan. "
     "Oracle per plan: motor positions reconstructed from the device ledger at each detector trigger = reference point (1e-9); the "
     "motor readings in the i-th event = reference point; every set target is the reference coordinate of its point; exactly one "
-    "checkpoint, one trigger and one event per point; start document num_points = number of points, shape = axis lengths, extents "
+    "checkpoint (before the acquisition), one trigger and one event per point; start document num_points = number of points, shape = axis lengths, extents "
     "cover exactly the visited range per axis, snaking = the requested flags. Non-trivial = at least two distinct points."
 )
 ASSUMPTIONS = [
@@ -400,30 +400,34 @@ def run_case(case):
             if not _same_point(p, q):
                 viol("recorded-positions-differ", f"event #{i + 1} records {tuple(float(x) for x in p)}, documented {q}")
                 break
-    # 3. one checkpoint per point, before the moves of that point, one save per checkpoint
+    # 3. one checkpointed reading per point: split the run at each 'save'; every chunk holds exactly one
+    #    checkpoint and it precedes the chunk's trigger/create/read (whether the moves come before or after the
+    #    checkpoint is not stated and not demanded)
     cmds = [m.command for m in obs.msgs]
     if "open_run" in cmds and "close_run" in cmds:
         body = cmds[cmds.index("open_run") + 1 : len(cmds) - 1 - cmds[::-1].index("close_run")]
-        ncp = body.count("checkpoint")
-        if ncp != len(ref):
-            viol("checkpoints-differ-from-points", f"{ncp} checkpoints for {len(ref)} points")
+        chunks, cur = [], []
+        for c in body:
+            cur.append(c)
+            if c == "save":
+                chunks.append(cur)
+                cur = []
+        tail = cur
+        if len(chunks) != len(ref):
+            viol("readings-differ-from-points", f"{len(chunks)} saved readings for {len(ref)} points")
+        elif tail.count("checkpoint") or body.count("checkpoint") != len(ref):
+            viol("checkpoints-differ-from-points", f"{body.count('checkpoint')} checkpoints for {len(ref)} points ({tail.count('checkpoint')} after the last reading)")
         else:
-            segs, cur = [], None
-            for c in body:
-                if c == "checkpoint":
-                    cur = []
-                    segs.append(cur)
-                elif cur is not None:
-                    cur.append(c)
-                elif c in ("set", "trigger", "create", "read", "save"):
-                    viol("action-before-first-checkpoint", f"'{c}' precedes the first checkpoint of the run")
+            for i, ch in enumerate(chunks):
+                acq = [k for k, c in enumerate(ch) if c in ("trigger", "create", "read")]
+                if ch.count("checkpoint") != 1 or ch.count("create") != 1:
+                    viol("not-one-checkpointed-reading-per-point", f"point #{i}: {ch.count('checkpoint')} checkpoint / {ch.count('create')} create in {ch}")
                     break
-            for i, s in enumerate(segs):
-                if s.count("save") != 1 or s.count("create") != 1:
-                    viol("not-one-reading-per-checkpoint", f"segment #{i}: {s.count('create')} create / {s.count('save')} save")
+                if acq and ch.index("checkpoint") > acq[0]:
+                    viol("reading-not-checkpointed", f"point #{i}: acquisition starts before the checkpoint: {ch}")
                     break
-                if "set" in s and s.index("create") < len(s) - 1 - s[::-1].index("set"):
-                    viol("move-after-reading-in-segment", f"segment #{i}: {s}")
+                if "set" in ch and acq and max(k for k, c in enumerate(ch) if c == "set") > acq[0]:
+                    viol("move-during-reading", f"point #{i}: a motor is commanded after the acquisition started: {ch}")
                     break
     else:
         viol("no-run", "no open_run/close_run pair in the message stream")
